@@ -30,7 +30,8 @@ P["C01"] = dict(
              "R-STACK-DUAL: the inverse of every stack sub-command is the documented dual (roll <-> unroll with m-n, push <-> pop with reversed arguments, swap/flip self-dual)",
              "R-PARITY: (parity abstract interpretation) under reflection in the equator the cart operator's inverse and Ellipsoid::geographic give longitude and height even and latitude odd in Z on every branch; Ellipsoid::cartesian gives X, Y even and Z odd in the latitude; the auxiliary latitudes are odd, the radii of curvature and the normal gravity formulas even in the latitude",
              "R-LAT-ARG-KIND: what the operators hand to an auxiliary-latitude conversion is an angle (a coordinate, a parameter, the result of an inverse trigonometric function, or a sum / scalar multiple of such), never a bare ratio such as the sine of the authalic latitude",
-             "R-MODE-FLAG-USED: every mode or aspect flag a constructor itself records (laea north_polar/south_polar/oblique, helmert rotated/dynamic/fixed_time, null_grid ...) is consulted by the operator: a detected mode is a handled mode"],
+             "R-MODE-FLAG-USED: every mode or aspect flag a constructor itself records (laea north_polar/south_polar/oblique, helmert rotated/dynamic/fixed_time, null_grid ...) is consulted by the operator: a detected mode is a handled mode",
+             "R-RECTIFY-ROTATION: omerc forward and inverse use a rotation and its reverse between skew and rectified coordinates"],
     not_decided=["numerical round-trip accuracy of any operator", "domain limits", "grid based shifts"],
     level="Decides structural clauses that are necessary conditions of 'inverse undoes forward' (see decides); does "
           "not decide the numerical round-trip accuracy of any operator.",
@@ -46,7 +47,8 @@ P["C05"] = dict(
              "R-ARG-SELECTION: at every call of a crate function no argument is a caller variable named like another same-typed parameter of the callee (exchanged arguments of equal type, e.g. qs(e, sinphi), chase(&locals, globals, key))",
              "R-PARAM-MIRROR: forward and inverse of each projection depend on the same parameters (same ellipsoid in both directions)",
              "R-LAT-ARG-KIND: what the operators hand to an auxiliary-latitude conversion is an angle (a coordinate, a parameter, the result of an inverse trigonometric function, or a sum / scalar multiple of such), never a bare ratio such as the sine of the authalic latitude",
-             "R-MODE-FLAG-USED: every mode or aspect flag a constructor itself records (laea north_polar/south_polar/oblique, helmert rotated/dynamic/fixed_time, null_grid ...) is consulted by the operator: a detected mode is a handled mode"],
+             "R-MODE-FLAG-USED: every mode or aspect flag a constructor itself records (laea north_polar/south_polar/oblique, helmert rotated/dynamic/fixed_time, null_grid ...) is consulted by the operator: a detected mode is a handled mode",
+             "R-RECTIFY-ROTATION: the step between skew (u, v) and rectified coordinates of omerc is a rotation through gamma_c in both directions (orthogonal rows of equal length as polynomials in sin/cos gamma_c)"],
     not_decided=["conformality, equal-area and true-scale identities (differential statements over R^2)"],
     level="Decides two necessary table identities of the transverse Mercator geometry; the differential geometry "
           "of the projections is not decidable statically and is not claimed.",
@@ -65,7 +67,9 @@ P["C06"] = dict(
              "R-ARG-SELECTION: at every call of a crate function no argument is a caller variable named like another same-typed parameter of the callee (exchanged arguments of equal type, e.g. qs(e, sinphi), chase(&locals, globals, key))",
              "R-PARAM-MIRROR: the latitude operator uses the same ellipsoid forward and inverse",
              "R-LAT-SHAPE: every auxiliary latitude conversion has a shape that is odd and fixes the equator and the poles by construction: phi + S(2 phi) with a sine series in even multiples and the coefficient set of its direction (forward/inverse), atan(c tan phi) / atan2(tan phi, c), or the isometric pair (odd)",
-             "R-PARITY: (parity abstract interpretation) under reflection in the equator the cart operator's inverse and Ellipsoid::geographic give longitude and height even and latitude odd in Z on every branch; Ellipsoid::cartesian gives X, Y even and Z odd in the latitude; the auxiliary latitudes are odd, the radii of curvature and the normal gravity formulas even in the latitude"],
+             "R-PARITY: (parity abstract interpretation) under reflection in the equator the cart operator's inverse and Ellipsoid::geographic give longitude and height even and latitude odd in Z on every branch; Ellipsoid::cartesian gives X, Y even and Z odd in the latitude; the auxiliary latitudes are odd, the radii of curvature and the normal gravity formulas even in the latitude",
+             "R-ELLPS-IDENTITIES: the derived shape parameters (b, second and third flattening, aspect ratio, e^2, e, e'^2, e', polar radius of curvature) equal their defining identities as exact rational functions of a and f (cross-multiplied polynomial comparison; squares compared for the square roots)",
+             "R-TUPLE-LOOP-COMPLETE: the per-tuple loops of the cart operator visit every tuple"],
     not_decided=["cartesian/geographic accuracy", "geodesic consistency", "closed-form agreement of series",
                  "identities among derived shape parameters"],
     level="Decides the table/series clauses of ellipsoid coherence exactly; numerical clauses are not claimed.",
@@ -81,7 +85,8 @@ P["C11"] = dict(
              "R-INDEX-SPACE: combine_descriptors indexes the source descriptor's multipliers by source positions",
              "R-UNITCONVERT-WIRING: fwd multiplies / inv divides elements 0,1 by xy_in*1/xy_out and element 2 by "
              "z_in*1/z_out; the constructor stores the factor of the right unit name under each key",
-             "R-INDEX-VALIDATION: list parameters that become array indices are validated as such: axisswap bounds the magnitude of each axis number and tests integrality and zero; stack push/pop/flip indices must be members of a literal list of integral values within 1..4"],
+             "R-INDEX-VALIDATION: list parameters that become array indices are validated as such: axisswap bounds the magnitude of each axis number and tests integrality and zero; stack push/pop/flip indices must be members of a literal list of integral values within 1..4",
+             "R-TABLE-SCAN: no index loop over a constant unit table stops short of its end"],
     not_decided=["acceptance/rejection of descriptor words", "axisswap validation"],
     level="Decides the table clauses (every unit name resolves to its own factor; adaptor macros as documented).",
     design_ref="DESIGN.md section 3, C11",
@@ -124,7 +129,9 @@ P["C07"] = dict(
              "S, DS from (scale|s), (scale_trend|ds)",
              "R-DIMENSION: (units-of-measure inference) every addition, subtraction and comparison in the ellipsoid geometry and in the operators with documented tuple conventions joins quantities of one physical dimension, transcendental functions get dimensionless arguments, and written tuple elements have the documented dimension (length / angle / time)",
              "R-ELLPS-SHADOW: molodensky gives a supplied ellps_0 precedence over the defaulted ellps (which ParsedParameters::ellps(0) would otherwise prefer), so the source ellipsoid is the one asked for",
-             "R-RATE-PAIRING: the stored T, R, S depend only on their own aliases and their own rates (fold to t_obs); per tuple each parameter is advanced by dt times its own rate, and the scale is refreshed under the same conditions as the translation"],
+             "R-RATE-PAIRING: the stored T, R, S depend only on their own aliases and their own rates (fold to t_obs); per tuple each parameter is advanced by dt times its own rate, and the scale is refreshed under the same conditions as the translation",
+             "R-ALIAS-GUARD: the test selecting a scalar alias (x, y, z, rx ... ds) reads the very key whose value is then taken",
+             "R-ELLPS-SHADOW/order: molodensky asks for ellps(0) only after a supplied ellps_0 has been given precedence"],
     not_decided=["molodensky accuracy", "second-order inverse accuracy in small-angle mode",
                  "conversion constants (arc-seconds, ppm) beyond their wiring"],
     level="Decides the epoch-independence and untouched-time clauses; the algebraic clauses are not decided.",
@@ -147,7 +154,9 @@ P["C08"] = dict(
              "R-ARG-SELECTION: at every call of a crate function no argument is a caller variable named like another same-typed parameter of the callee (exchanged arguments of equal type, e.g. qs(e, sinphi), chase(&locals, globals, key))",
              "R-NULL-LAST: in grids_at the null grid answers only after the strict and the margin pass over all grids have failed",
              "R-NTV2-FIELDS: grid geometry (increments, bounds) of NTv2 sub-grids comes from the records documented for it",
-             "R-BILINEAR: BaseGrid::at is decided to be the bilinear interpolation of the four corner nodes of the cell: two latitude interpolations (1-r)*lower + r*upper with one weight over rows `row`/`row-1` (index difference -bands*cols, as polynomials) of the columns `col`/`col+1`, joined in longitude with weight r_lon; the weights are the cell-unit offsets from the lower-left node built from the clamped row/col that index the nodes; row is clamped to [1, rows-1], col to [0, cols-2]"],
+             "R-BILINEAR: BaseGrid::at is decided to be the bilinear interpolation of the four corner nodes of the cell: two latitude interpolations (1-r)*lower + r*upper with one weight over rows `row`/`row-1` (index difference -bands*cols, as polynomials) of the columns `col`/`col+1`, joined in longitude with weight r_lon; the weights are the cell-unit offsets from the lower-left node built from the clamped row/col that index the nodes; row is clamped to [1, rows-1], col to [0, cols-2]",
+             "R-SIBLING-SEARCH: the walk over NTv2 sub-grids ends early only after recording the grid found, and descends into children only after recording their parent",
+             "R-KEY-DECLARED: the null-grid flag is read under the key the constructor stores it under"],
     not_decided=["bilinearity, continuity, NTv2 sub-grid selection values", "unit conventions"],
     level="Decides the 'outside all grids is failed' clause as a path property; interpolation numerics are not decided.",
     design_ref="DESIGN.md section 3, C08",
@@ -167,7 +176,9 @@ P["C10"] = dict(
              "R-TUPLE-LOOP-COMPLETE: per-tuple loops visit every tuple (no break/return in the body), so no tuple is left untransformed, uncounted and looking valid",
              "R-ITER-CAP-AGREE: the non-convergence test of the geodesic operator can fire: threshold < iteration cap of geodesic_inv, applied to the count as returned",
              "R-PLACEHOLDER: the stand-in for a missing inverse (InnerOp::default) writes nothing and returns the constant 0",
-             "R-LOOP-CARRIED: no state survives from one tuple to the next (the helmert epoch memo starts at NaN and is refreshed whenever the epoch differs - a NaN epoch never reuses parameters)"],
+             "R-LOOP-CARRIED: no state survives from one tuple to the next (the helmert epoch memo starts at NaN and is refreshed whenever the epoch differs - a NaN epoch never reuses parameters)",
+             "R-NAN-TRANSPARENT: no f64::min / f64::max (which swallow NaN) inside a per-tuple loop",
+             "R-KEY-DECLARED: every flag an operator reads is one its constructor declares or stores (a misspelt key makes a case fail visibly or silently)"],
     not_decided=["NaN propagation through arithmetic", "which inputs are inside the domain"],
     level="Decides the counting/NaN discipline and untouched-axes clauses as all-paths properties of the operator "
           "loops; numerical domain questions are not decided.",
@@ -370,7 +381,10 @@ P["C14"] = dict(
              "R-ARG-SELECTION: at every call of a crate function no argument is a caller variable named like another same-typed parameter of the callee (exchanged arguments of equal type, e.g. qs(e, sinphi), chase(&locals, globals, key))",
              "R-ITER-CAP-AGREE: the geodesic operator rejects only runs at the iteration cap of the ellipsoid method (threshold within 1% of the cap), so operator and method agree on every converged solution",
              "R-INDEX-SPACE: adapt reads the multiplier of the source descriptor at the gathered index (agreement of adapt with axisswap for the mappings they share)",
-             "R-PARITY: (parity abstract interpretation) under reflection in the equator the cart operator's inverse and Ellipsoid::geographic give longitude and height even and latitude odd in Z on every branch; Ellipsoid::cartesian gives X, Y even and Z odd in the latitude; the auxiliary latitudes are odd, the radii of curvature and the normal gravity formulas even in the latitude"],
+             "R-PARITY: (parity abstract interpretation) under reflection in the equator the cart operator's inverse and Ellipsoid::geographic give longitude and height even and latitude odd in Z on every branch; Ellipsoid::cartesian gives X, Y even and Z odd in the latitude; the auxiliary latitudes are odd, the radii of curvature and the normal gravity formulas even in the latitude",
+             "R-SIBLING-ELEMENTS: the five gravity formula helpers read latitude and height from the same tuple elements",
+             "T-UNITS: unit factors equal the published values (unitconvert and adapt share the angular mappings exactly)",
+             "R-TUPLE-LOOP-COMPLETE: the per-tuple loops of the wrapper operators visit every tuple"],
     not_decided=["every numerical agreement listed in the statement (tmerc vs btmerc, cart vs geocart inverse, "
                  "series vs closed forms and quadrature)"],
     level="Decides wiring agreement between independent routes; numerical agreement is not decided.",
